@@ -408,7 +408,7 @@ fn probes_derived(defs: &Map<String, Value>, s: &Value, depth: usize, out: &mut 
             // arrays of a legal length with one element replaced by an item probe
             let len = o.get("minItems").and_then(|x| x.as_u64()).unwrap_or(1).max(1) as usize;
             let unique = o.get("uniqueItems").and_then(|x| x.as_bool()) == Some(true);
-            for p in sub.into_iter().take(40) {
+            for p in sub.into_iter().take(160) {
                 let mut arr: Vec<Value> = (0..len).map(|i| if unique && item.is_number() { json!(i + 100) } else { item.clone() }).collect();
                 arr[0] = p;
                 out.push(json!(arr));
@@ -418,6 +418,12 @@ fn probes_derived(defs: &Map<String, Value>, s: &Value, depth: usize, out: &mut 
     // objects
     if let Some(Value::Object(vo)) = Some(&valid) {
         let props = o.get("properties").and_then(|p| p.as_object());
+        // an extra property, of several types
+        for extra in [json!(1), json!("x"), json!(null), json!({"a": 1})] {
+            let mut with = vo.clone();
+            with.insert("zz_extra".into(), extra);
+            out.push(Value::Object(with));
+        }
         if let Some(props) = props {
             // pass 1: each property absent
             for (k, _) in props {
@@ -437,18 +443,12 @@ fn probes_derived(defs: &Map<String, Value>, s: &Value, depth: usize, out: &mut 
             for (k, ps) in props {
                 let mut sub = vec![];
                 probes(defs, ps, depth + 1, &mut sub);
-                for p in sub.into_iter().take(45) {
+                for p in sub.into_iter().take(170) {
                     let mut with = vo.clone();
                     with.insert(k.clone(), p);
                     out.push(Value::Object(with));
                 }
             }
-        }
-        // an extra property, of several types
-        for extra in [json!(1), json!("x"), json!(null), json!({"a": 1})] {
-            let mut with = vo.clone();
-            with.insert("zz_extra".into(), extra);
-            out.push(Value::Object(with));
         }
         if let Some(ap) = o.get("additionalProperties") {
             if ap.is_object() {
@@ -482,7 +482,7 @@ fn probes_derived(defs: &Map<String, Value>, s: &Value, depth: usize, out: &mut 
             for sub in a {
                 let mut subp = vec![];
                 probes(defs, sub, depth + 1, &mut subp);
-                out.extend(subp.into_iter().take(60));
+                out.extend(subp.into_iter().take(150));
             }
         }
     }
@@ -508,6 +508,8 @@ pub fn mutants(s: &Value, path: &str, out: &mut Vec<(String, Value)>) {
             match (k.as_str(), &o[k]) {
                 ("nullable", Value::Bool(false)) | ("uniqueItems", Value::Bool(false)) | ("additionalProperties", Value::Bool(true)) => continue,
                 ("exclusiveMinimum", Value::Bool(_)) | ("exclusiveMaximum", Value::Bool(_)) => continue,
+                // a lower size limit of zero says nothing
+                ("minItems", v) | ("minLength", v) | ("minProperties", v) if v.as_u64() == Some(0) => continue,
                 // `type` next to `enum`/`const` is redundant: removing it gives an equivalent schema
                 ("type", _) if o.contains_key("enum") || o.contains_key("const") => continue,
                 _ => {}
@@ -557,6 +559,10 @@ pub fn mutants(s: &Value, path: &str, out: &mut Vec<(String, Value)>) {
     recurse_map("properties", out);
     for key in ["items", "additionalProperties", "not"] {
         if let Some(sub_s) = o.get(key) {
+            // no element can exist: constraints on elements are vacuous
+            if key == "items" && o.get("maxItems").and_then(|x| x.as_u64()) == Some(0) {
+                continue;
+            }
             if sub_s.is_object() {
                 let mut sub = vec![];
                 mutants(sub_s, &format!("{}/{}", path, key), &mut sub);
